@@ -145,13 +145,13 @@ Proof. exact raw_inner_terminator_leaks. Qed.
 
 (* Non-vacuity: the three styles at once, raw texts with and without trailing newlines. *)
 Example C19_lex_example :
-  let cgo := [S "#include <a.h>"; S "int f();" ++ [x0a]; S "//go:build x"; S "/* raw */";
+  let cgo := [S "#include <a.h>"; S "int f();" ++ [x0a]; S "//export f"; S "/* raw */";
               S "//#include <b.h>" ++ [x0a; x0a]; S "/* c */" ++ [x0a]] in
   Forall preamble_domain cgo /\
   fst (fst (lex_run MCode [] (preamble_block cgo))) =
   [(KLine, S "// #include <a.h>"); (KCode, [x0a]);
    (KBlock, S "/*" ++ [x0a] ++ S "int f();" ++ [x0a] ++ S "*/"); (KCode, [x0a]);
-   (KLine, S "//go:build x"); (KCode, [x0a]);
+   (KLine, S "//export f"); (KCode, [x0a]);
    (KBlock, S "/* raw */"); (KCode, [x0a]);
    (KLine, S "//#include <b.h>"); (KCode, [x0a]);
    (KBlock, S "/* c */"); (KCode, x0a :: S "import "); (KStr, [c_dq] ++ S "C" ++ [c_dq])].
@@ -159,8 +159,8 @@ Proof.
   split; [|vm_compute; reflexivity].
   apply Forall_cons; [left; vm_compute; repeat split; reflexivity|].
   apply Forall_cons; [left; vm_compute; repeat split; reflexivity|].
-  apply Forall_cons; [right; left; exists (S "//go:build x"), 0%nat; split; [reflexivity|];
-                      exists (S "go:build x"); split; reflexivity|].
+  apply Forall_cons; [right; left; exists (S "//export f"), 0%nat; split; [reflexivity|];
+                      exists (S "export f"); split; reflexivity|].
   apply Forall_cons; [right; right; exists (S "/* raw */"), 0%nat; split; [reflexivity|];
                       exists (S " raw "); split; reflexivity|].
   apply Forall_cons; [right; left; exists (S "//#include <b.h>"), 2%nat; split; [reflexivity|];
